@@ -131,15 +131,15 @@ Qed.
 
 Lemma read_exec s f q : read (fs_of (exec s f)) q = rstep s (read f) q.
 Proof.
-  destruct s as [d|p|p c n|p|p p'|p|d]; simpl; unfold fs_of; simpl.
+  destruct s as [d|p|p c n|p|p p'|p|d].
+  7: { unfold read. rewrite files_rmdir. reflexivity. }
+  all: simpl; unfold fs_of; simpl.
   - destruct d as [x|]; [|reflexivity]. destruct (mems x (dirs f)); reflexivity.
   - apply read_set.
   - apply read_set.
   - reflexivity.
   - destruct (read f p) as [c|]; [|reflexivity]. rewrite read_set, read_rm. reflexivity.
   - apply read_rm.
-  - unfold read. change (fst (fst (exec (SRmdirIfEmpty d) f))) with (fs_of (exec (SRmdirIfEmpty d) f)).
-    rewrite files_rmdir. reflexivity.
 Qed.
 
 Lemma run_steps_cons s t f :
@@ -169,4 +169,848 @@ Proof.
   destruct (run_steps (firstn i ss) f) as [[f1 e1] t1]; simpl in H.
   destruct (nth_error ss i) as [[d|p|p c n|p|p p'|p|d]|]; simpl; try apply H.
   destruct (Nat.ltb k n); simpl; [|apply H]. rewrite read_set, H. reflexivity.
+Qed.
+
+(* ---- 2. slots: the four paths of one location ------------------------------------------------ *)
+Inductive slot := FP | FC | TP | TC.      (* final .pckl, final .cpckl, tmp .pckl, tmp .cpckl *)
+Definition slot_eqb (a b : slot) : bool :=
+  match a, b with FP, FP => true | FC, FC => true | TP, TP => true | TC, TC => true | _, _ => false end.
+Definition spath (l : loc) (s : slot) : path :=
+  match s with FP => fin l Pk | FC => fin l Cp | TP => tmp l Pk | TC => tmp l Cp end.
+
+Lemma spath_eqb l a b : path_eqb (spath l a) (spath l b) = slot_eqb a b.
+Proof.
+  destruct l as [d s]. destruct a, b; unfold path_eqb, spath, fin, tmp; simpl;
+    rewrite ?String.eqb_refl, ?dir_eqb_refl; reflexivity.
+Qed.
+
+Lemma spath_other l l' a b : loc_eqb l' l = false -> path_eqb (spath l' a) (spath l b) = false.
+Proof.
+  destruct l as [d s], l' as [d' s']. unfold loc_eqb; simpl. intros H.
+  destruct a, b; unfold path_eqb, spath, fin, tmp; simpl; try reflexivity; exact H.
+Qed.
+
+Lemma spath_user l d u b : path_eqb (d, NUser u) (spath l b) = false.
+Proof. destruct b; reflexivity. Qed.
+
+Inductive astep :=
+| AMkdir | ACreate (s : slot) | AWrite (s : slot) (c : content) (n : nat) | AClose (s : slot)
+| ARename (s t : slot) | AUnlink (s : slot) | ARmdir.
+
+Definition conc (l : loc) (a : astep) : step :=
+  match a with
+  | AMkdir => SMkdir (fst l)
+  | ACreate s => SCreate (spath l s)
+  | AWrite s c n => SWrite (spath l s) c n
+  | AClose s => SClose (spath l s)
+  | ARename s t => SRename (spath l s) (spath l t)
+  | AUnlink s => SUnlink (spath l s)
+  | ARmdir => SRmdirIfEmpty (fst l)
+  end.
+
+Definition aview := slot -> option content.
+Definition arstep (a : astep) (r : aview) : aview := fun q =>
+  match a with
+  | ACreate p => if slot_eqb q p then Some (Partial 0) else r q
+  | AWrite p c _ => if slot_eqb q p then Some c else r q
+  | ARename p p' =>
+      match r p with
+      | Some c => if slot_eqb q p' then Some c else if slot_eqb q p then None else r q
+      | None => r q
+      end
+  | AUnlink p => if slot_eqb q p then None else r q
+  | _ => r q
+  end.
+Fixpoint arsteps (ss : list astep) (r : aview) : aview :=
+  match ss with [] => r | s :: t => arsteps t (arstep s r) end.
+
+Lemma rstep_conc l a (F : rfun) (r : aview) :
+  (forall sl, F (spath l sl) = r sl) -> forall sl, rstep (conc l a) F (spath l sl) = arstep a r sl.
+Proof.
+  intros H sl. destruct a; simpl; rewrite ?spath_eqb, ?H; try reflexivity.
+Qed.
+
+Lemma rsteps_conc l ss : forall (F : rfun) (r : aview),
+  (forall sl, F (spath l sl) = r sl) -> forall sl, rsteps (map (conc l) ss) F (spath l sl) = arsteps ss r sl.
+Proof.
+  induction ss as [|a t IH]; intros F r H sl; simpl; [apply H|].
+  apply IH. intros sl'. apply rstep_conc, H.
+Qed.
+
+Lemma rstep_frame l a (F : rfun) q :
+  (forall sl, path_eqb q (spath l sl) = false) -> rstep (conc l a) F q = F q.
+Proof.
+  intros H. destruct a; simpl; rewrite ?H; try reflexivity.
+  destruct (F (spath l s)); reflexivity.
+Qed.
+
+Lemma rsteps_frame l ss : forall (F : rfun) q,
+  (forall sl, path_eqb q (spath l sl) = false) -> rsteps (map (conc l) ss) F q = F q.
+Proof.
+  induction ss as [|a t IH]; intros F q H; simpl; [reflexivity|].
+  rewrite IH by exact H. apply rstep_frame, H.
+Qed.
+
+Definition acrash (ss : list astep) (i k : nat) (r : aview) : aview := fun q =>
+  let r1 := arsteps (firstn i ss) r in
+  match nth_error ss i with
+  | Some (AWrite p c n) => if Nat.ltb k n then (if slot_eqb q p then Some (Partial k) else r1 q) else r1 q
+  | _ => r1 q
+  end.
+
+Lemma nth_error_map' {A B} (f : A -> B) l : forall i, nth_error (map f l) i = option_map f (nth_error l i).
+Proof. induction l as [|x r IH]; intros [|i]; simpl; auto. Qed.
+
+Lemma rcrash_conc l ss i k (F : rfun) (r : aview) :
+  (forall sl, F (spath l sl) = r sl) ->
+  forall sl, rcrash (map (conc l) ss) i k F (spath l sl) = acrash ss i k r sl.
+Proof.
+  intros H sl. unfold rcrash, acrash. rewrite firstn_map, nth_error_map'.
+  pose proof (rsteps_conc l (firstn i ss) F r H sl) as E.
+  destruct (nth_error ss i) as [[| | s c n | | | |]|]; simpl; try exact E.
+  destruct (Nat.ltb k n); [|exact E]. rewrite spath_eqb, E. reflexivity.
+Qed.
+
+Lemma rcrash_frame l ss i k (F : rfun) q :
+  (forall sl, path_eqb q (spath l sl) = false) -> rcrash (map (conc l) ss) i k F q = F q.
+Proof.
+  intros H. unfold rcrash. rewrite firstn_map, nth_error_map', rsteps_frame by exact H.
+  destruct (nth_error ss i) as [[| | s c n | | | |]|]; simpl; try reflexivity.
+  rewrite H. destruct (Nat.ltb k n); reflexivity.
+Qed.
+
+(* the save program over slots *)
+Definition tslot (fl : flavour) : slot := match fl with Pk => TP | Cp => TC end.
+Definition fslot (fl : flavour) : slot := match fl with Pk => FP | Cp => FC end.
+
+Definition aattack (fb : bool) (c : cls) (v : Z) (k : kind) (n g : nat) (fl : flavour) : list astep :=
+  if pickles k fl then
+    [ACreate (tslot fl); AWrite (tslot fl) (Full c v) n; AClose (tslot fl); ARename (tslot fl) (fslot fl)]
+    ++ (if fb then [AUnlink (fslot (other fl))] else [])
+  else [ACreate (tslot fl); AWrite (tslot fl) (Partial g) g; AClose (tslot fl); AUnlink (tslot fl)].
+
+Definition asave_steps (fb : bool) (c : cls) (v : Z) (k : kind) (n g : nat) : list astep :=
+  [AMkdir] ++ aattack fb c v k n g Pk
+  ++ (if pickles k Pk then [] else if fb then aattack fb c v k n g Cp else [])
+  ++ [ARmdir].
+
+Lemma save_steps_conc l fb c v k n g :
+  save_steps l fb c v k n g = map (conc l) (asave_steps fb c v k n g).
+Proof. destruct k, fb; reflexivity. Qed.
+
+Lemma save_steps_length l fb c v k n g : List.length (save_steps l fb c v k n g) <= 11.
+Proof. destruct k, fb; simpl; lia. Qed.
+
+(* ---- 3. the refinement between files and the specification ------------------------------------- *)
+Definition good (x : option content) : Prop := forall k, x <> Some (Partial k).
+
+Definition rel (w : aview) (x : option (flavour * cls * Z)) : Prop :=
+  match x with
+  | Some (Pk, c, v) => w FP = Some (Full c v) /\ good (w FC)
+  | Some (Cp, c, v) => w FP = None /\ w FC = Some (Full c v)
+  | None => w FP = None /\ w FC = None
+  end.
+
+Lemma good_none : good None. Proof. intros k; discriminate. Qed.
+Lemma good_full c v : good (Some (Full c v)). Proof. intros k; discriminate. Qed.
+#[export] Hint Resolve good_none good_full : store.
+
+Local Arguments Nat.ltb : simpl never.
+
+Ltac rel_case :=
+  unfold acrash; cbn;
+  repeat match goal with |- context [Nat.ltb ?a ?b] => destruct (Nat.ltb a b) end; cbn;
+  repeat match goal with
+         | H : ?w FP = _ |- _ => rewrite H
+         | H : ?w FC = _ |- _ => rewrite H
+         end; cbn; auto with store.
+
+Lemma asave_rel fb c v kd n g i k (w : aview) x :
+  rel w x ->
+  rel (acrash (asave_steps fb c v kd n g) i k w)
+      (if committed kd fb (is_pk x) (Some (i, k)) then Some (save_flavour kd, c, v) else x).
+Proof.
+  intros H.
+  destruct x as [[[[|] c0] v0]|]; simpl in H; destruct H as [H1 H2].
+  - (* visible .pckl *)
+    assert (G : w FC = None \/ exists c' v', w FC = Some (Full c' v')).
+    { destruct (w FC) as [[c' v'|k']|]; [right; eauto|exfalso; exact (H2 k' eq_refl)|left; reflexivity]. }
+    clear H2. destruct G as [H2|(c' & v' & H2)];
+    destruct kd, fb; do 12 (destruct i as [|i]; [rel_case|]); rel_case.
+  - destruct kd, fb; do 12 (destruct i as [|i]; [rel_case|]); rel_case.
+  - destruct kd, fb; do 12 (destruct i as [|i]; [rel_case|]); rel_case.
+Qed.
+
+Definition view (f : fs) (l : loc) : aview := fun sl => read f (spath l sl).
+Definition inv (f : fs) (r : vis) : Prop := forall l, rel (view f l) (r l).
+
+Lemma rel_ext (w w' : aview) x : (forall sl, w' sl = w sl) -> rel w x -> rel w' x.
+Proof. intros E. unfold rel. rewrite !E. auto. Qed.
+
+Lemma rel_load f l x : rel (view f l) x -> load_file f l = lres_of x.
+Proof.
+  unfold load_file, view; simpl. change (fin l Pk) with (spath l FP). change (fin l Cp) with (spath l FC).
+  destruct x as [[[[|] c] v]|]; simpl; intros [H1 H2]; rewrite ?H1, ?H2; reflexivity.
+Qed.
+
+Lemma rel_has f l x : rel (view f l) x -> has_saved f l = isSome x.
+Proof.
+  unfold has_saved, view; simpl. change (fin l Pk) with (spath l FP). change (fin l Cp) with (spath l FC).
+  destruct x as [[[[|] c] v]|]; simpl; intros [H1 H2]; rewrite ?H1, ?H2; reflexivity.
+Qed.
+
+Lemma rel_good f l x : rel (view f l) x -> good (read f (fin l Pk)) /\ good (read f (fin l Cp)).
+Proof.
+  unfold view; simpl. change (fin l Pk) with (spath l FP). change (fin l Cp) with (spath l FC).
+  destruct x as [[[[|] c] v]|]; simpl; intros [H1 H2]; rewrite ?H1, ?H2; auto with store.
+Qed.
+
+Lemma rel_is_pk f l x : rel (view f l) x -> is_pk x = isSome (read f (fin l Pk)).
+Proof.
+  unfold view; simpl. change (fin l Pk) with (spath l FP).
+  destruct x as [[[[|] c] v]|]; simpl; intros [H1 H2]; rewrite H1; reflexivity.
+Qed.
+
+(* a save, crashed or not, is a crash prefix *)
+Definition crash_i (crash : option (nat * nat)) : nat := match crash with None => 12 | Some (i, _) => i end.
+Definition crash_k (crash : option (nat * nat)) : nat := match crash with None => 0 | Some (_, k) => k end.
+
+Lemma crash_at_all ss i k f : List.length ss <= i ->
+  crash_at ss i k f = (let '(f1, _, t) := run_steps ss f in (f1, t)).
+Proof.
+  intros H. unfold crash_at. rewrite firstn_all2 by exact H.
+  assert (E : nth_error ss i = None) by (apply nth_error_None; exact H). rewrite E.
+  destruct (run_steps ss f) as [[f1 e1] t1]; reflexivity.
+Qed.
+
+Lemma save_fs l fb c v kd n g crash f :
+  fst (fst (save l fb c v kd n g crash f))
+  = fst (crash_at (save_steps l fb c v kd n g) (crash_i crash) (crash_k crash) f).
+Proof.
+  unfold save. cbv zeta. pose proof (save_steps_length l fb c v kd n g) as L.
+  set (ss := save_steps l fb c v kd n g) in *. clearbody ss.
+  destruct crash as [[i j]|]; unfold crash_i, crash_k.
+  - destruct (Nat.ltb i (List.length ss)) eqn:E.
+    + destruct (crash_at ss i j f) as [f1 t]; reflexivity.
+    + apply Nat.ltb_ge in E. rewrite crash_at_all by exact E.
+      destruct (run_steps ss f) as [[f1 e1] t1]; reflexivity.
+  - rewrite crash_at_all by lia. destruct (run_steps ss f) as [[f1 e1] t1]; reflexivity.
+Qed.
+
+Lemma committed_crash kd fb sh crash :
+  committed kd fb sh crash = committed kd fb sh (Some (crash_i crash, crash_k crash)).
+Proof. destruct crash as [[i j]|]; [reflexivity|]. destruct kd, fb, sh; reflexivity. Qed.
+
+Lemma view_save_same l fb c v kd n g i k f sl :
+  view (fst (crash_at (save_steps l fb c v kd n g) i k f)) l sl
+  = acrash (asave_steps fb c v kd n g) i k (view f l) sl.
+Proof.
+  unfold view. rewrite read_crash_at, save_steps_conc. apply rcrash_conc. reflexivity.
+Qed.
+
+Lemma view_save_other l l' fb c v kd n g i k f sl :
+  loc_eqb l' l = false ->
+  view (fst (crash_at (save_steps l fb c v kd n g) i k f)) l' sl = view f l' sl.
+Proof.
+  intros H. unfold view. rewrite read_crash_at, save_steps_conc. apply rcrash_frame.
+  intros sl'. apply spath_other, H.
+Qed.
+
+Lemma read_save_user l fb c v kd n g i k f d u :
+  read (fst (crash_at (save_steps l fb c v kd n g) i k f)) (d, NUser u) = read f (d, NUser u).
+Proof.
+  rewrite read_crash_at, save_steps_conc. apply rcrash_frame. intros sl. apply spath_user.
+Qed.
+
+(* delete *)
+Definition adelete_steps (has : bool) : list astep :=
+  (if has then [AUnlink FP; AUnlink FC] else []) ++ [ARmdir].
+Lemma delete_steps_conc f l : delete_steps f l = map (conc l) (adelete_steps (has_saved f l)).
+Proof. unfold delete_steps, adelete_steps. destruct (has_saved f l); reflexivity. Qed.
+
+Lemma view_delete_same l f sl :
+  view (fs_of (delete l f)) l sl = arsteps (adelete_steps (has_saved f l)) (view f l) sl.
+Proof.
+  unfold view, delete. rewrite read_run_steps, delete_steps_conc. apply rsteps_conc. reflexivity.
+Qed.
+
+Lemma view_delete_other l l' f sl : loc_eqb l' l = false -> view (fs_of (delete l f)) l' sl = view f l' sl.
+Proof.
+  intros H. unfold view, delete. rewrite read_run_steps, delete_steps_conc. apply rsteps_frame.
+  intros sl'. apply spath_other, H.
+Qed.
+
+Lemma read_delete_user l f d u : read (fs_of (delete l f)) (d, NUser u) = read f (d, NUser u).
+Proof.
+  unfold delete. rewrite read_run_steps, delete_steps_conc. apply rsteps_frame. intros sl. apply spath_user.
+Qed.
+
+Lemma rel_delete f l x : rel (view f l) x -> rel (view (fs_of (delete l f)) l) None.
+Proof.
+  intros H. apply (rel_ext (arsteps (adelete_steps (has_saved f l)) (view f l))).
+  - intros sl; apply view_delete_same.
+  - pose proof (rel_has f l x H) as Hh. unfold adelete_steps.
+    destruct (has_saved f l) eqn:E; simpl; [split; reflexivity|].
+    destruct x as [[[[|] c] v]|]; simpl in Hh; try discriminate. exact H.
+Qed.
+
+Lemma view_touch d s f l sl : view (touch d s f) l sl = view f l sl.
+Proof.
+  unfold view, touch. rewrite read_set, path_eqb_sym, spath_user, read_exec. reflexivity.
+Qed.
+
+Lemma ctor_fs label c del auto f :
+  fst (fst (ctor label c del auto f)) = if del then fs_of (delete (default_loc label) f) else f.
+Proof.
+  unfold ctor, fs_of. destruct del.
+  - destruct (delete (default_loc label) f) as [[f1 e] t]; simpl.
+    destruct e; [reflexivity|]. destruct (auto && has_saved f1 (default_loc label)); reflexivity.
+  - simpl. destruct (auto && has_saved f (default_loc label)); reflexivity.
+Qed.
+
+Lemma vset_same l x r : vset l x r l = x.
+Proof. unfold vset. rewrite loc_eqb_refl. reflexivity. Qed.
+Lemma vset_other l l' x r : loc_eqb l' l = false -> vset l x r l' = r l'.
+Proof. unfold vset. intros ->. reflexivity. Qed.
+
+Lemma inv_delete f r l : inv f r -> inv (fs_of (delete l f)) (vset l None r).
+Proof.
+  intros H l'. destruct (loc_eqb l' l) eqn:E.
+  - apply loc_eqb_eq in E; subst l'. rewrite vset_same. eapply rel_delete, H.
+  - rewrite vset_other by exact E. eapply rel_ext; [|apply H]. intros sl. apply view_delete_other, E.
+Qed.
+
+Lemma inv_apply o f r : inv f r -> inv (apply o f) (spec_step o r).
+Proof.
+  intros H. destruct o as [l fb c v kd n g crash|l c w|label c del auto|l|d s]; simpl.
+  - rewrite save_fs, committed_crash. intros l'. destruct (loc_eqb l' l) eqn:E.
+    + apply loc_eqb_eq in E; subst l'.
+      eapply rel_ext; [intros sl; apply view_save_same|].
+      pose proof (asave_rel fb c v kd n g (crash_i crash) (crash_k crash) _ _ (H l)) as A.
+      destruct (committed kd fb (is_pk (r l)) (Some (crash_i crash, crash_k crash))).
+      * rewrite vset_same. exact A.
+      * exact A.
+    + eapply rel_ext; [intros sl; apply view_save_other, E|].
+      destruct (committed kd fb (is_pk (r l)) (Some (crash_i crash, crash_k crash))).
+      * rewrite vset_other by exact E. apply H.
+      * apply H.
+  - exact H.
+  - rewrite ctor_fs. destruct del; [apply inv_delete, H|exact H].
+  - apply inv_delete, H.
+  - intros l. eapply rel_ext; [intros sl; apply view_touch|apply H].
+Qed.
+
+Lemma inv_run_from ops : forall f r, inv f r ->
+  inv (run_from f ops) (fold_left (fun r o => spec_step o r) ops r).
+Proof.
+  induction ops as [|o t IH]; intros f r H; simpl; [exact H|]. apply IH, inv_apply, H.
+Qed.
+
+Lemma inv0 : inv fs0 vis0.
+Proof. intros l. split; reflexivity. Qed.
+
+Theorem inv_run ops : inv (run ops) (spec ops).
+Proof. apply inv_run_from, inv0. Qed.
+
+(* ---- 4. the statements ------------------------------------------------------------------------ *)
+Lemma run_snoc ops o : run (ops ++ [o]) = apply o (run ops).
+Proof. unfold run, run_from. rewrite fold_left_app. reflexivity. Qed.
+Lemma spec_snoc ops o : spec (ops ++ [o]) = spec_step o (spec ops).
+Proof. unfold spec. rewrite fold_left_app. reflexivity. Qed.
+
+Theorem history_load ops l : load_file (run ops) l = lres_of (spec ops l).
+Proof. apply rel_load, inv_run. Qed.
+
+Theorem history_has ops l : has_saved (run ops) l = isSome (spec ops l).
+Proof. apply rel_has, inv_run. Qed.
+
+Theorem history_no_partial ops d s fl k : read (run ops) (d, NFinal s fl) <> Some (Partial k).
+Proof.
+  destruct (rel_good _ _ _ (inv_run ops (d, s))) as [G1 G2]. destruct fl; [apply G1|apply G2].
+Qed.
+
+Definition adopt (x : option (flavour * cls * Z)) (nd : node) (missing : nres) : node * nres :=
+  match x with
+  | None => (nd, missing)
+  | Some (_, c', v) => if cls_eqb c' (fst nd) then ((c', v), NOk) else (nd, NTypeErr)
+  end.
+
+Theorem history_node_load ops l nd : node_load (run ops) l nd = adopt (spec ops l) nd NNotFound.
+Proof.
+  unfold node_load. rewrite history_load. destruct (spec ops l) as [[[fl c'] v]|]; reflexivity.
+Qed.
+
+Theorem history_autoload ops label c :
+  snd (fst (ctor label c false true (run ops))) = adopt (spec ops (default_loc label)) (c, 0%Z) NOk.
+Proof.
+  unfold ctor. simpl. rewrite history_has.
+  pose proof (history_node_load ops (default_loc label) (c, 0%Z)) as E.
+  destruct (spec ops (default_loc label)) as [[[fl c'] v]|]; simpl in *; [rewrite E|]; reflexivity.
+Qed.
+
+(* final files are literally untouched by a failing save and by any save cut before its rename *)
+Definition rename_idx (kd : kind) : nat := match kd with KOk => 5 | _ => 9 end.
+
+Ltac same_case :=
+  unfold acrash; cbn;
+  repeat match goal with |- context [Nat.ltb ?a ?b] => destruct (Nat.ltb a b) end; cbn; auto.
+
+Lemma asave_untouched fb c v kd n g i k (w : aview) :
+  save_ok kd fb = false \/ i < rename_idx kd ->
+  acrash (asave_steps fb c v kd n g) i k w FP = w FP /\ acrash (asave_steps fb c v kd n g) i k w FC = w FC.
+Proof.
+  intros [H|H].
+  - destruct kd, fb; try discriminate H; do 12 (destruct i as [|i]; [same_case|]); same_case.
+  - destruct kd, fb; simpl in H; do 9 (destruct i as [|i]; [try (exfalso; lia); same_case|]); exfalso; lia.
+Qed.
+
+Lemma commit_le_rename kd sh : rename_idx kd <= commit_idx kd sh.
+Proof. destruct kd, sh; simpl; lia. Qed.
+
+Theorem crash_safe ops l fb c v kd n g crash :
+  let o := OSave l fb c v kd n g crash in
+  let i := crash_i crash in
+  let shadow := isSome (read (run ops) (fin l Pk)) in
+  let before := load_file (run ops) l in
+  let after := load_file (run (ops ++ [o])) l in
+  (save_ok kd fb = false \/ i < commit_idx kd shadow -> after = before) /\
+  (save_ok kd fb = true -> commit_idx kd shadow <= i -> after = LOk c v) /\
+  (save_ok kd fb = false \/ i < rename_idx kd ->
+     forall fl, read (run (ops ++ [o])) (fin l fl) = read (run ops) (fin l fl)) /\
+  after <> LCorrupt /\
+  has_saved (run (ops ++ [o])) l = negb (match after with LNotFound => true | _ => false end) /\
+  (forall l', l' <> l -> load_file (run (ops ++ [o])) l' = load_file (run ops) l') /\
+  (forall l' fl j, read (run (ops ++ [o])) (fin l' fl) <> Some (Partial j)).
+Proof.
+  intros o i shadow before after. subst before after.
+  rewrite !history_load, history_has, spec_snoc. simpl.
+  rewrite committed_crash. fold i.
+  assert (Esh : is_pk (spec ops l) = shadow) by (apply rel_is_pk, inv_run). rewrite Esh.
+  unfold committed.
+  repeat split.
+  - intros [H|H].
+    + rewrite H. reflexivity.
+    + apply Nat.leb_gt in H. rewrite H, andb_false_r. reflexivity.
+  - intros H1 H2. apply Nat.leb_le in H2. rewrite H1, H2. simpl. rewrite vset_same. reflexivity.
+  - intros H fl. rewrite run_snoc. simpl. rewrite save_fs. fold i.
+    pose proof (view_save_same l fb c v kd n g i (crash_k crash) (run ops)) as E. unfold view in E.
+    destruct (asave_untouched fb c v kd n g i (crash_k crash) (fun sl => read (run ops) (spath l sl)) H) as [A B].
+    destruct fl.
+    + change (fin l Pk) with (spath l FP). rewrite E. exact A.
+    + change (fin l Cp) with (spath l FC). rewrite E. exact B.
+  - destruct (save_ok kd fb && Nat.leb (commit_idx kd shadow) i).
+    + rewrite vset_same. discriminate.
+    + destruct (spec ops l) as [[[? ?] ?]|]; discriminate.
+  - destruct (save_ok kd fb && Nat.leb (commit_idx kd shadow) i).
+    + rewrite vset_same. reflexivity.
+    + destruct (spec ops l) as [[[? ?] ?]|]; reflexivity.
+  - intros l' Hl. rewrite !history_load, spec_snoc. simpl. rewrite committed_crash. fold i. rewrite Esh.
+    unfold committed. destruct (save_ok kd fb && Nat.leb (commit_idx kd shadow) i); [|reflexivity].
+    rewrite vset_other by (apply loc_eqb_neq, Hl). reflexivity.
+  - intros [d s] fl j. apply (history_no_partial (ops ++ [o])).
+Qed.
+
+Theorem success_visible ops l fb c v kd n g w :
+  save_ok kd fb = true ->
+  let f' := run (ops ++ [OSave l fb c v kd n g None]) in
+  load_file f' l = LOk c v /\ has_saved f' l = true /\ node_load f' l (c, w) = ((c, v), NOk) /\
+  (forall label, l = default_loc label -> snd (fst (ctor label c false true f')) = ((c, v), NOk)).
+Proof.
+  intros H f'. subst f'.
+  assert (E : spec (ops ++ [OSave l fb c v kd n g None]) l = Some (save_flavour kd, c, v)).
+  { rewrite spec_snoc. simpl. unfold committed. rewrite H. simpl. apply vset_same. }
+  assert (R : cls_eqb c c = true) by (apply cls_eqb_eq; reflexivity).
+  repeat split.
+  - rewrite history_load, E. reflexivity.
+  - rewrite history_has, E. reflexivity.
+  - rewrite history_node_load, E. simpl. rewrite R. reflexivity.
+  - intros label ->. rewrite history_autoload, E. simpl. rewrite R. reflexivity.
+Qed.
+
+Theorem class_refused f l c w c' v :
+  load_file f l = LOk c' v -> c' <> c -> node_load f l (c, w) = ((c, w), NTypeErr).
+Proof.
+  intros H N. unfold node_load. rewrite H. simpl.
+  destruct (cls_eqb c' c) eqn:E; [apply cls_eqb_eq in E; contradiction|reflexivity].
+Qed.
+
+Theorem class_refused_ctor f label c c' v (del : bool) :
+  load_file (if del then fs_of (delete (default_loc label) f) else f) (default_loc label) = LOk c' v -> c' <> c ->
+  snd (fst (ctor label c del true f)) = ((c, 0%Z), NTypeErr) \/ snd (snd (fst (ctor label c del true f))) = NOsErr.
+Proof.
+  intros H N. unfold ctor, fs_of in *. destruct del.
+  - destruct (delete (default_loc label) f) as [[f1 e] t]; simpl in *.
+    destruct e; [right; reflexivity|left].
+    assert (Hs : has_saved f1 (default_loc label) = true).
+    { unfold has_saved. unfold load_file in H.
+      destruct (read f1 (fin (default_loc label) Pk)); [reflexivity|].
+      destruct (read f1 (fin (default_loc label) Cp)); [reflexivity|discriminate]. }
+    rewrite Hs. simpl. apply (class_refused _ _ c 0%Z c' v); assumption.
+  - left. simpl in *.
+    assert (Hs : has_saved f (default_loc label) = true).
+    { unfold has_saved. unfold load_file in H.
+      destruct (read f (fin (default_loc label) Pk)); [reflexivity|].
+      destruct (read f (fin (default_loc label) Cp)); [reflexivity|discriminate]. }
+    rewrite Hs. simpl. apply (class_refused _ _ c 0%Z c' v); assumption.
+Qed.
+
+Theorem class_accepted f l c w v : load_file f l = LOk c v -> node_load f l (c, w) = ((c, v), NOk).
+Proof.
+  intros H. unfold node_load. rewrite H. simpl.
+  assert (R : cls_eqb c c = true) by (apply cls_eqb_eq; reflexivity). rewrite R. reflexivity.
+Qed.
+
+(* ---- delete; directories ---------------------------------------------------------------------- *)
+Lemma run_steps_app a : forall b f, fs_of (run_steps (a ++ b) f) = fs_of (run_steps b (fs_of (run_steps a f))).
+Proof.
+  induction a as [|s t IH]; intros b f; [reflexivity|].
+  simpl app. rewrite !run_steps_cons. apply IH.
+Qed.
+
+Lemma dirs_set p c f : dirs (set_file p c f) = dirs f. Proof. reflexivity. Qed.
+Lemma dirs_rm p f : dirs (rm_file p f) = dirs f. Proof. reflexivity. Qed.
+
+Lemma mems_remove1_other x d l : String.eqb d x = false -> mems d (remove1 String.eqb x l) = mems d l.
+Proof.
+  intros N. induction l as [|y r IH]; [reflexivity|]. unfold mems in *. simpl.
+  destruct (String.eqb x y) eqn:E.
+  - apply String.eqb_eq in E; subst y. rewrite N. reflexivity.
+  - simpl. rewrite IH. reflexivity.
+Qed.
+
+Lemma mems_remove1_same x l : NoDup l -> mems x (remove1 String.eqb x l) = false.
+Proof.
+  induction 1 as [|y r Hn Hd IH]; [reflexivity|]. simpl.
+  destruct (String.eqb x y) eqn:E.
+  - apply String.eqb_eq in E; subst y. destruct (mems x r) eqn:M; [apply mems_In in M; contradiction|reflexivity].
+  - unfold mems in *. simpl. rewrite E, IH. reflexivity.
+Qed.
+
+Lemma nodup_remove1 x l : NoDup l -> NoDup (remove1 String.eqb x l).
+Proof.
+  induction 1 as [|y r Hn Hd IH]; [constructor|]. simpl.
+  destruct (String.eqb x y); [exact Hd|]. constructor; [|exact IH].
+  intros Hin. apply Hn. clear -Hin. induction r as [|z r IH]; [contradiction|].
+  simpl in Hin. destruct (String.eqb x z); [right; exact Hin|]. destruct Hin; [left; auto|right; auto].
+Qed.
+
+Lemma nodup_exec s f : NoDup (dirs f) -> NoDup (dirs (fs_of (exec s f))).
+Proof.
+  intros H. destruct s as [d|p|p c n|p|p p'|p|d]; unfold fs_of; simpl; auto.
+  - destruct d as [x|]; [|exact H]. destruct (mems x (dirs f)) eqn:M; [exact H|]. simpl.
+    constructor; [|exact H]. intros Hin. apply mems_In in Hin. congruence.
+  - destruct (read f p); exact H.
+  - destruct (dir_exists f d); [|exact H]. destruct (dir_empty f d); [|exact H].
+    destruct d as [x|]; [|exact H]. simpl. apply nodup_remove1, H.
+Qed.
+
+Lemma nodup_run_steps ss : forall f, NoDup (dirs f) -> NoDup (dirs (fs_of (run_steps ss f))).
+Proof.
+  induction ss as [|s t IH]; intros f H; [exact H|]. rewrite run_steps_cons. apply IH, nodup_exec, H.
+Qed.
+
+Lemma nodup_crash_at ss i k f : NoDup (dirs f) -> NoDup (dirs (fst (crash_at ss i k f))).
+Proof.
+  intros H. unfold crash_at. pose proof (nodup_run_steps (firstn i ss) f H) as N. unfold fs_of in N.
+  destruct (run_steps (firstn i ss) f) as [[f1 e1] t1]; simpl in N.
+  destruct (nth_error ss i) as [[d|p|p c n|p|p p'|p|d]|]; simpl; try exact N.
+  destruct (Nat.ltb k n); exact N.
+Qed.
+
+Lemma nodup_apply o f : NoDup (dirs f) -> NoDup (dirs (apply o f)).
+Proof.
+  intros H. destruct o as [l fb c v kd n g crash|l c w|label c dl auto|l|d s]; simpl.
+  - rewrite save_fs. apply nodup_crash_at, H.
+  - exact H.
+  - rewrite ctor_fs. destruct dl; [apply nodup_run_steps, H|exact H].
+  - apply nodup_run_steps, H.
+  - change (NoDup (dirs (fs_of (exec (SMkdir d) f)))). apply nodup_exec, H.
+Qed.
+
+Lemma nodup_run ops : NoDup (dirs (run ops)).
+Proof.
+  unfold run. assert (G : forall f, NoDup (dirs f) -> NoDup (dirs (run_from f ops))).
+  { induction ops as [|o t IH]; intros f H; simpl; [exact H|]. apply IH, nodup_apply, H. }
+  apply G. constructor.
+Qed.
+
+Lemma rmdir_removes f d :
+  NoDup (dirs f) ->
+  let f' := fs_of (exec (SRmdirIfEmpty (Some d)) f) in
+  has_file_in f' (Some d) = false -> dir_exists f' (Some d) = false.
+Proof.
+  intros N f'. subst f'. unfold fs_of; simpl.
+  destruct (mems d (dirs f)) eqn:M; [|simpl; intros _; exact M].
+  unfold dir_empty. destruct (has_file_in f (Some d)) eqn:Hf; simpl.
+  - intros H. rewrite Hf in H. discriminate.
+  - intros _. apply mems_remove1_same, N.
+Qed.
+
+(* what delete guarantees in every reachable state: the files load looks at are gone, nothing else is
+   touched, the directory goes when it is left without files *)
+Theorem delete_final_gone ops l :
+  let f' := run (ops ++ [ODelete l]) in
+  read f' (fin l Pk) = None /\ read f' (fin l Cp) = None /\ has_saved f' l = false /\ load_file f' l = LNotFound /\
+  (forall l', l' <> l -> load_file f' l' = load_file (run ops) l') /\
+  (forall d u, read f' (d, NUser u) = read (run ops) (d, NUser u)) /\
+  (forall d, fst l = Some d -> has_file_in f' (Some d) = false -> dir_exists f' (Some d) = false).
+Proof.
+  intros f'. subst f'.
+  assert (E : spec (ops ++ [ODelete l]) l = None) by (rewrite spec_snoc; simpl; apply vset_same).
+  pose proof (inv_run (ops ++ [ODelete l]) l) as R. rewrite E in R. destruct R as [R1 R2].
+  repeat split.
+  - exact R1.
+  - exact R2.
+  - rewrite history_has, E. reflexivity.
+  - rewrite history_load, E. reflexivity.
+  - intros l' Hl. rewrite !history_load, spec_snoc. simpl. rewrite vset_other by (apply loc_eqb_neq, Hl). reflexivity.
+  - intros d u. rewrite run_snoc. simpl. apply read_delete_user.
+  - intros d Hd. rewrite run_snoc. simpl. unfold delete, delete_steps. rewrite run_steps_app.
+    destruct l as [dl s]; simpl in Hd; subst dl. simpl fst.
+    rewrite run_steps_cons. change (fs_of (run_steps [] ?x)) with x.
+    apply rmdir_removes, nodup_run_steps, nodup_run.
+Qed.
+
+(* ... and with no scratch file left behind by an interrupted save, nothing of the location remains *)
+Theorem delete_cleans_guarded ops l :
+  read (run ops) (tmp l Pk) = None -> read (run ops) (tmp l Cp) = None ->
+  let f' := run (ops ++ [ODelete l]) in
+  forall fl, read f' (fin l fl) = None /\ read f' (tmp l fl) = None.
+Proof.
+  intros T1 T2 f' fl. subst f'. destruct (delete_final_gone ops l) as (A & B & _).
+  split; [destruct fl; assumption|].
+  rewrite run_snoc. simpl.
+  pose proof (view_delete_same l (run ops)) as V. unfold view in V.
+  destruct fl.
+  - change (tmp l Pk) with (spath l TP). rewrite V. unfold adelete_steps.
+    destruct (has_saved (run ops) l); simpl; exact T1.
+  - change (tmp l Cp) with (spath l TC). rewrite V. unfold adelete_steps.
+    destruct (has_saved (run ops) l); simpl; exact T2.
+Qed.
+
+(* OSError only comes from removing the cwd *)
+Lemma exec_err s f : snd (fst (exec s f)) = true -> s = SRmdirIfEmpty None.
+Proof.
+  destruct s as [d|p|p c n|p|p p'|p|d]; simpl; try discriminate.
+  destruct (dir_exists f d); [|discriminate]. destruct (dir_empty f d); [|discriminate].
+  destruct d; [discriminate|reflexivity].
+Qed.
+
+Lemma run_steps_err ss : forall f, snd (fst (run_steps ss f)) = true -> In (SRmdirIfEmpty None) ss.
+Proof.
+  induction ss as [|s t IH]; intros f; simpl; [discriminate|].
+  pose proof (exec_err s f) as E. destruct (exec s f) as [[f1 e1] t1]; simpl in E.
+  specialize (IH f1). destruct (run_steps t f1) as [[f2 e2] t2]; simpl in *.
+  destruct e1; simpl; [intros _; left; apply E; reflexivity|intros H; right; apply IH, H].
+Qed.
+
+Theorem delete_no_error f l d : fst l = Some d -> snd (fst (delete l f)) = false.
+Proof.
+  intros H. destruct (snd (fst (delete l f))) eqn:E; [|reflexivity]. exfalso.
+  apply run_steps_err in E. unfold delete_steps in E. destruct l as [dl s]; simpl in H; subst dl.
+  destruct (has_saved f (Some d, s)); simpl in E; intuition discriminate.
+Qed.
+
+Theorem save_no_error l d fb c v kd n g f : fst l = Some d ->
+  snd (fst (run_steps (save_steps l fb c v kd n g) f)) = false.
+Proof.
+  intros H. destruct (snd (fst (run_steps (save_steps l fb c v kd n g) f))) eqn:E; [|reflexivity]. exfalso.
+  apply run_steps_err in E. unfold save_steps, attack in E. destruct l as [dl s]; simpl in H; subst dl.
+  destruct kd, fb; simpl in E; intuition discriminate.
+Qed.
+
+(* ---- files live in existing directories (so "the file is still there" includes its directory) ---- *)
+Definition wfd (f : fs) : Prop := forall d nm c, read f (Some d, nm) = Some c -> mems d (dirs f) = true.
+
+Definition creates_in (s : step) : option dir :=
+  match s with
+  | SCreate p | SWrite p _ _ => Some (fst p)
+  | SRename _ q => Some (fst q)
+  | _ => None
+  end.
+
+Lemma read_has_file f p c : read f p = Some c -> has_file_in f (fst p) = true.
+Proof.
+  unfold read, has_file_in. induction (files f) as [|[k v] r IH]; simpl; [discriminate|].
+  destruct (path_eqb p k) eqn:E.
+  - apply path_eqb_eq in E; subst k. intros _. rewrite dir_eqb_refl. reflexivity.
+  - intros H. rewrite (IH H). apply orb_true_r.
+Qed.
+
+Lemma path_eqb_dir d nm p : path_eqb (Some d, nm) p = true -> fst p = Some d.
+Proof. intros H. apply path_eqb_eq in H. subst p. reflexivity. Qed.
+
+Lemma wfd_exec s f :
+  wfd f -> (forall d, creates_in s = Some d -> dir_exists f d = true) -> wfd (fs_of (exec s f)).
+Proof.
+  intros W C d nm c0. rewrite read_exec.
+  destruct s as [d0|p|p c n|p|p p'|p|d0]; simpl; unfold fs_of; simpl.
+  - intros H. apply W in H. destruct d0 as [x|]; [|exact H].
+    destruct (mems x (dirs f)) eqn:M; [exact H|]. unfold mems in *. simpl. rewrite H. apply orb_true_r.
+  - destruct (path_eqb (Some d, nm) p) eqn:E; [|apply W].
+    intros _. apply path_eqb_dir in E. specialize (C (fst p) eq_refl). rewrite E in C. exact C.
+  - destruct (path_eqb (Some d, nm) p) eqn:E; [|apply W].
+    intros _. apply path_eqb_dir in E. specialize (C (fst p) eq_refl). rewrite E in C. exact C.
+  - apply W.
+  - destruct (read f p) as [cp|]; [|apply W]. simpl.
+    destruct (path_eqb (Some d, nm) p') eqn:E.
+    + intros _. apply path_eqb_dir in E. specialize (C (fst p') eq_refl). rewrite E in C. exact C.
+    + destruct (path_eqb (Some d, nm) p); [discriminate|apply W].
+  - destruct (path_eqb (Some d, nm) p); [discriminate|apply W].
+  - intros H. pose proof (W _ _ _ H) as M.
+    destruct (dir_exists f d0); [|exact M]. destruct (dir_empty f d0) eqn:Em; [|exact M].
+    destruct d0 as [x|]; [|exact M]. simpl.
+    destruct (String.eqb d x) eqn:Ex.
+    + apply String.eqb_eq in Ex; subst x. apply read_has_file in H. simpl in H.
+      unfold dir_empty in Em. rewrite H in Em. discriminate.
+    + rewrite mems_remove1_other by exact Ex. exact M.
+Qed.
+
+Definition no_rmdir (a : astep) : bool := match a with ARmdir => false | _ => true end.
+
+Lemma creates_conc l a d : creates_in (conc l a) = Some d -> d = fst l.
+Proof. destruct a as [|s|s c n|s|s t|s|]; simpl; try discriminate; intros H; inversion H; [destruct s|destruct s|destruct t]; reflexivity. Qed.
+
+Lemma dir_exists_exec l a f : no_rmdir a = true -> dir_exists f (fst l) = true ->
+  dir_exists (fs_of (exec (conc l a) f)) (fst l) = true.
+Proof.
+  intros N H. destruct a as [|s|s c n|s|s t|s|]; simpl; unfold fs_of; simpl; try exact H; try discriminate.
+  - destruct (fst l) as [x|]; [|reflexivity]. simpl in *. rewrite H. exact H.
+  - destruct (read f (spath l s)); exact H.
+Qed.
+
+Lemma wfd_run_confined l ss : forall f, forallb no_rmdir ss = true -> wfd f -> dir_exists f (fst l) = true ->
+  wfd (fs_of (run_steps (map (conc l) ss) f)) /\ dir_exists (fs_of (run_steps (map (conc l) ss) f)) (fst l) = true.
+Proof.
+  induction ss as [|a t IH]; intros f N W D; [split; assumption|].
+  simpl in N. apply andb_true_iff in N. destruct N as [Na Nt].
+  simpl map. rewrite run_steps_cons. apply IH; [exact Nt| |apply dir_exists_exec; assumption].
+  apply wfd_exec; [exact W|]. intros d Hd. apply creates_conc in Hd. subst d. exact D.
+Qed.
+
+Lemma forallb_firstn {A} (p : A -> bool) l : forall j, forallb p l = true -> forallb p (firstn j l) = true.
+Proof.
+  induction l as [|x r IH]; intros [|j] H; simpl; auto.
+  simpl in H. apply andb_true_iff in H. destruct H as [Hx Hr]. rewrite Hx. apply IH, Hr.
+Qed.
+
+Definition abody (fb : bool) (c : cls) (v : Z) (k : kind) (n g : nat) : list astep :=
+  aattack fb c v k n g Pk ++ (if pickles k Pk then [] else if fb then aattack fb c v k n g Cp else []).
+
+Lemma asave_steps_body fb c v k n g : asave_steps fb c v k n g = AMkdir :: abody fb c v k n g ++ [ARmdir].
+Proof. unfold asave_steps, abody. simpl. rewrite <- app_assoc. reflexivity. Qed.
+Lemma abody_no_rmdir fb c v k n g : forallb no_rmdir (abody fb c v k n g) = true.
+Proof. destruct k, fb; reflexivity. Qed.
+
+Lemma wfd_mkdir (l : loc) f : wfd f ->
+  wfd (fs_of (exec (SMkdir (fst l)) f)) /\ dir_exists (fs_of (exec (SMkdir (fst l)) f)) (fst l) = true.
+Proof.
+  intros W. split; [apply wfd_exec; [exact W|simpl; discriminate]|].
+  unfold fs_of; simpl. destruct (fst l) as [x|]; [|reflexivity].
+  destruct (mems x (dirs f)) eqn:M; simpl; [exact M|]. unfold mems; simpl. rewrite String.eqb_refl. reflexivity.
+Qed.
+
+Lemma wfd_prefix l fb c v kd n g i f : wfd f ->
+  wfd (fs_of (run_steps (firstn i (save_steps l fb c v kd n g)) f)).
+Proof.
+  intros W. rewrite save_steps_conc, asave_steps_body.
+  destruct i as [|j]; [exact W|].
+  simpl map. simpl firstn. rewrite run_steps_cons.
+  destruct (wfd_mkdir l f W) as [W1 D1].
+  change (SMkdir (fst l)) with (conc l AMkdir) in *.
+  set (f1 := fs_of (exec (conc l AMkdir) f)) in *. clearbody f1.
+  rewrite firstn_map, firstn_app, map_app, run_steps_app.
+  destruct (wfd_run_confined l (firstn j (abody fb c v kd n g)) f1
+              (forallb_firstn _ _ _ (abody_no_rmdir fb c v kd n g)) W1 D1) as [W2 D2].
+  destruct (j - List.length (abody fb c v kd n g)) as [|m]; [exact W2|].
+  simpl firstn. simpl map. rewrite run_steps_cons, firstn_nil. simpl map. change (fs_of (run_steps [] ?x)) with x.
+  apply wfd_exec; [exact W2|simpl; discriminate].
+Qed.
+
+Lemma awrite_target_exists fb c v kd n g i sl c0 n0 (w : aview) :
+  nth_error (asave_steps fb c v kd n g) i = Some (AWrite sl c0 n0) ->
+  arsteps (firstn i (asave_steps fb c v kd n g)) w sl = Some (Partial 0).
+Proof.
+  destruct kd, fb; do 12 (destruct i as [|i]; [cbn; intros H; inversion H; subst; reflexivity|]);
+    cbn; intros H; destruct i; discriminate.
+Qed.
+
+Lemma wfd_crash l fb c v kd n g i k f : wfd f -> wfd (fst (crash_at (save_steps l fb c v kd n g) i k f)).
+Proof.
+  intros W. unfold crash_at.
+  pose proof (wfd_prefix l fb c v kd n g i f W) as W1.
+  pose proof (read_run_steps (firstn i (save_steps l fb c v kd n g)) f) as R.
+  unfold fs_of in W1, R.
+  destruct (run_steps (firstn i (save_steps l fb c v kd n g)) f) as [[f1 e1] t1]; simpl in W1, R.
+  destruct (nth_error (save_steps l fb c v kd n g) i) as [[d|p|p c1 n1|p|p p'|p|d]|] eqn:E; simpl; try exact W1.
+  destruct (Nat.ltb k n1); [|exact W1]. simpl.
+  (* the file being written already exists *)
+  rewrite save_steps_conc, nth_error_map' in E.
+  destruct (nth_error (asave_steps fb c v kd n g) i) as [[|s|s c2 n2|s|s t|s|]|] eqn:E2; simpl in E; try discriminate.
+  inversion E; subst p c1 n1.
+  assert (X : read f1 (spath l s) = Some (Partial 0)).
+  { rewrite R, save_steps_conc, firstn_map.
+    rewrite (rsteps_conc l _ (read f) (fun sl => read f (spath l sl))) by reflexivity.
+    eapply awrite_target_exists, E2. }
+  intros d nm c3. rewrite read_set.
+  destruct (path_eqb (Some d, nm) (spath l s)) eqn:Ep; [|apply W1].
+  intros _. apply path_eqb_eq in Ep. rewrite <- Ep in X. eapply W1, X.
+Qed.
+
+Lemma wfd_run_steps_nocreate ss : forall f, (forall s, In s ss -> creates_in s = None) -> wfd f ->
+  wfd (fs_of (run_steps ss f)).
+Proof.
+  induction ss as [|s t IH]; intros f H W; [exact W|]. rewrite run_steps_cons.
+  apply IH; [intros s' Hs; apply H; right; exact Hs|].
+  apply wfd_exec; [exact W|]. intros d Hd. rewrite (H s (or_introl eq_refl)) in Hd. discriminate.
+Qed.
+
+Lemma wfd_delete l f : wfd f -> wfd (fs_of (delete l f)).
+Proof.
+  intros W. unfold delete. apply wfd_run_steps_nocreate; [|exact W].
+  intros s Hs. unfold delete_steps in Hs. destruct (has_saved f l); simpl in Hs;
+    repeat (destruct Hs as [Hs|Hs]; [subst s; reflexivity|]); contradiction.
+Qed.
+
+Lemma wfd_apply o f : wfd f -> wfd (apply o f).
+Proof.
+  intros W. destruct o as [l fb c v kd n g crash|l c w|label c dl auto|l|d s]; simpl.
+  - rewrite save_fs. apply wfd_crash, W.
+  - exact W.
+  - rewrite ctor_fs. destruct dl; [apply wfd_delete, W|exact W].
+  - apply wfd_delete, W.
+  - unfold touch. destruct (wfd_mkdir (d, s) f W) as [W1 D1]. simpl fst in *.
+    intros d' nm c. rewrite read_set.
+    destruct (path_eqb (Some d', nm) (d, NUser s)) eqn:E; [|apply W1].
+    intros _. apply path_eqb_dir in E. simpl in E. subst d. exact D1.
+Qed.
+
+Theorem wfd_run ops : wfd (run ops).
+Proof.
+  unfold run. assert (G : forall f, wfd f -> wfd (run_from f ops)).
+  { induction ops as [|o t IH]; intros f H; simpl; [exact H|]. apply IH, wfd_apply, H. }
+  apply G. intros d nm c H. discriminate.
+Qed.
+
+(* delete raises exactly when it is asked to remove the (emptied) cwd *)
+Definition after_unlinks (f : fs) (l : loc) : fs :=
+  fs_of (run_steps (if has_saved f l then [SUnlink (fin l Pk); SUnlink (fin l Cp)] else []) f).
+
+Theorem delete_error_iff f s :
+  snd (fst (delete (None, s) f)) = dir_empty (after_unlinks f (None, s)) None.
+Proof.
+  unfold delete, delete_steps, after_unlinks, fs_of.
+  destruct (has_saved f (None, s)); simpl;
+    match goal with |- context [dir_empty ?x None] => destruct (dir_empty x None) end; reflexivity.
+Qed.
+
+(* the observation function of the correspondence check walks the same file systems as [run] *)
+Lemma obs_op_fs locs ds users o f prev : fst (fst (obs_op locs ds users o f prev)) = apply o f.
+Proof.
+  destruct o as [l fb c v kd n g crash|l c w|label c dl auto|l|d s]; simpl.
+  - destruct (save l fb c v kd n g crash f) as [[f1 r] t]; reflexivity.
+  - destruct (node_load f l (c, w)) as [[c1 v1] r]; reflexivity.
+  - destruct (ctor label c dl auto f) as [[f1 [[c1 v1] r]] t]; reflexivity.
+  - unfold fs_of. destruct (delete l f) as [[f1 e] t]; reflexivity.
+  - reflexivity.
 Qed.
